@@ -38,6 +38,11 @@ def expected_destinations(case):
     haps = [h.lower() for h in case.get("haps", [])]
     out = []
     target_seen = False
+    primary_hap = None  # set once a Primary tag has been seen: that haplotype's sequence goes to the "primary" assembly
+
+    def keyed(h):
+        return "primary" if h is not None and h == primary_hap else h
+
     for pname, rows in case["map"]:
         frs = [r for r in rows if r[0] == "F"]
         sc_tags = {t for r in frs for t in r[5]}
@@ -45,6 +50,8 @@ def expected_destinations(case):
             target_seen = True
         hap = next((h for h in haps if any(t.lower() == h for t in sc_tags)), None)
         painted = "Painted" in sc_tags
+        if "Primary" in sc_tags and primary_hap is None:
+            primary_hap = hap or next((h for h in haps if frs[0][1].lower().startswith(h + "_")), None)
         for r in frs:
             ptag = next((t for t in PIECE_TAGS if t in r[5]), None)
             if ptag:
@@ -52,13 +59,13 @@ def expected_destinations(case):
             elif target_seen and "Target" not in sc_tags:
                 dest = "contaminant"
             elif hap:
-                dest = hap
+                dest = keyed(hap)
             else:
                 h = next((h for h in haps if frs[0][1].lower().startswith(h + "_")), None)
-                dest = h if h else "none"
+                dest = keyed(h) if h else "none"
             out.append((pname, r, dest, painted))
     left = "contaminant" if target_seen else None
-    return out, left
+    return out, left, primary_hap
 
 
 def key_lc(k):
@@ -71,8 +78,10 @@ def judge(case, outs, classes):
     M = 3 * (1 + math.floor(t))
     input_rows = {n: r for n, r in case["input"]}
     lengths = {n: ref.rows_len(r) for n, r in case["input"]}
-    dests, left_dest = expected_destinations(case)
+    dests, left_dest, primary_hap = expected_destinations(case)
     haps = [h.lower() for h in case.get("haps", [])]
+    if primary_hap:
+        classes.add("primary_mode")
     by_scaffold = {}
     for pname, r, dest, painted in dests:
         by_scaffold.setdefault(pname, []).append((r, dest))
@@ -91,6 +100,8 @@ def judge(case, outs, classes):
         found, _reasons = ref.find_run(segs, outs)
         where = sorted({f[0] for f in found})
         classes.add("dest_" + ("hap" if dest in haps else dest))
+        if dest == "falseduplicate" and primary_hap:
+            classes.add("falseduplicate_in_primary_mode")
         if where != [dest]:
             # fall back to locating the first core contig, for the message
             first = segs[0]
@@ -107,7 +118,7 @@ def judge(case, outs, classes):
                     classes.add("target_mode_with_leftovers")
                 else:
                     h = next((h for h in haps if name.lower().startswith(h + "_")), None)
-                    want = h or "none"
+                    want = ("primary" if h == primary_hap else h) if h else "none"
                     if h:
                         classes.add("hap_prefixed_leftover")
                 holders = sorted({k for k, _n, orows in outs for row in orows if row[0] == "F" and row[1:4] == r[1:4]})
@@ -120,7 +131,7 @@ def judge(case, outs, classes):
 
 def nontrivial(cl):
     return bool(cl & {"tagged_piece_shares_scaffold_with_other_destination", "target_mode_with_leftovers",
-                      "hap_prefixed_unplaced_scaffold", "hap_prefixed_leftover"})
+                      "hap_prefixed_unplaced_scaffold", "hap_prefixed_leftover", "primary_mode"})
 
 
 def body_api(case, rec):
@@ -169,13 +180,21 @@ def body_cli(case, rec):
                 key = "contaminant"
             elif "falseduplicates" in nm:
                 key = "falseduplicate"
+            elif "all_haplotigs" in nm:
+                # Primary mode: the haplotypes that are not curated are written together
+                key = "other_haplotypes"
             else:
                 # haplotype files are <root>.<hap>.<v>.primary.curated.* or, when a primary assembly exists as well, <root>.<v>.<hap>s.curated.*
-                key = next((h for h in haps if f".{h}." in nm or f".{h}s." in nm), "none")
+                key = next((h for h in haps if f".{h}." in nm or f".{h}s." in nm), "primary" if case.get("primary_mode") else "none")
                 if ".curated." not in nm:
                     raise Violation(f"curated assembly file without '.curated.' in its name: {nm}")
             for n, rows in ref.read_agp(f.read_text())[1]:
                 outs.append((key, n, [row[:5] if row[0] == "F" else row for row in rows]))
+        if any(k == "other_haplotypes" for k, _n, _r in outs):
+            # map the merged file back to the haplotype key the statement speaks of
+            _d, _l, primary_hap = expected_destinations(case)
+            others = [h for h in haps if h != primary_hap]
+            outs = [((others[0] if k == "other_haplotypes" and len(others) == 1 else k), n, r) for k, n, r in outs]
         try:
             judge(case, outs, classes)
         finally:
@@ -187,6 +206,8 @@ def body_cli(case, rec):
 SUBS = [
     Sub("api", kind="hyp", strategy=gen.tagged_case, body=body_api,
         budget={"quick": 16000, "thorough": 300000}, desc="dict returned by assemblies_with_scaffolds_fused vs expected destination per piece"),
+    Sub("cli_primary", kind="hyp", strategy=lambda: gen.tagged_case(max_scaffolds=5, max_contigs=4, two_haplotypes=True, primary_mode=True, piece_tag_weight=3), body=body_cli,
+        budget={"quick": 160, "thorough": 2000}, desc="Primary mode (one curated haplotype) through the CLI: primary / all_haplotigs / haplotigs / contaminants / falseduplicates files"),
     Sub("cli", kind="hyp", strategy=lambda: gen.tagged_case(max_scaffolds=4, max_contigs=5), body=body_cli,
         budget={"quick": 240, "thorough": 3000}, desc="same through the CLI, destination judged by output file name"),
 ]
